@@ -1,7 +1,7 @@
 // C13 harness: formats generated messages with the real JsonFormatter.
 // input line:  <flag> <type> <msg> <fmt> <cat> <file> <fn> <line> <na> [<key> <value>]...
 //   strings are hex UTF-16 units (4 digits each); "-" = empty string; "0" = null pointer / not formatted
-//   value: n | t | f | I<int> | u<uint> | i<qlonglong> | U<qulonglong> | d<double holding an integer> | F<float holding an integer> | s<hex16> | a<count> v... | o<count> (k v)...
+//   value: n | t | f | I<int> | u<uint> | i<qlonglong> | U<qulonglong> | d<double holding an integer> | F<float holding an integer> | l<long> L<ulong> h<short> H<ushort> (probe) | s<hex16> | a<count> v... | o<count> (k v)...
 //   optional multi-step suffix: "|" then steps on the SAME message object
 //     S <n> (k v)*n   setAttributes({...})      U <n> (k v)*n   updateAttributes({...})
 //     A <k> <v>       setAttribute(k, v)        R <k>           removeAttribute(k)
@@ -45,6 +45,11 @@ static QVariant val(std::istringstream &is)
     if (k == 'u') return QVariant(uint(std::stoll(r)));
     if (k == 'U') return QVariant::fromValue<qulonglong>(qulonglong(std::stoll(r)));
     if (k == 'F') return QVariant(float(std::stoll(r)));
+    // further integer QVariant types (observation probe only: QJsonValue::fromVariant of Qt 5.15 has no case for them)
+    if (k == 'l') return QVariant::fromValue<long>(long(std::stoll(r)));
+    if (k == 'L') return QVariant::fromValue<unsigned long>((unsigned long)std::stoll(r));
+    if (k == 'h') return QVariant::fromValue<short>(short(std::stoll(r)));
+    if (k == 'H') return QVariant::fromValue<ushort>(ushort(std::stoll(r)));
     if (k == 's') return unhex(r.empty() ? "-" : r);
     if (k == 'a') { int n = std::stoi(r); QVariantList l; for (int i = 0; i < n; i++) l << val(is); return l; }
     if (k == 'o') { int n = std::stoi(r); QVariantMap m; for (int i = 0; i < n; i++) { std::string kk; is >> kk; auto v = val(is); m.insert(unhex(kk), v); } return m; }
